@@ -295,7 +295,7 @@ def run(report, replay=None):
             obs = observation(pos, outs_by.get(rid, [])) if rid in outs_by else None
             texts[rid] = '%s  in position %s%s' % (text, pos, '' if ran_all else '  [script: %s %s]' % (res.errors.strip()[:80], res.machine_fault or ''))
             if obs is None:
-                rows.append({'id': rid, 'kind': 'expr', 'toks': strip(lists[li]), 'skip': False, 'obs': {'kind': 'truth', 'b': 2}, 'pos': pos})
+                rows.append({'id': rid, 'kind': 'expr', 'toks': strip(lists[li]), 'skip': False, 'obs': {'kind': 'none'}, 'pos': pos})
             else:
                 rows.append({'id': rid, 'kind': 'expr', 'toks': strip(lists[li]), 'skip': False, 'obs': obs, 'pos': pos})
     brow, btexts, problem = builtin_rows(world, rng, tier)
@@ -326,7 +326,7 @@ def run(report, replay=None):
             sig = 'builtin:' + row['fn']
         else:
             ops = [t['o'] for t in row['toks'] if t['t'] == 'op']
-            sig = 'expr:%s:%s' % (row['pos'], 'unobserved' if row['obs'].get('b') == 2 else 'value')
+            sig = 'expr:%s:%s' % (row['pos'], 'unobserved' if row['obs'].get('kind') == 'none' else 'value')
         report.violation(sig, '%s: observed %s' % (texts[row['id']], row.get('obs') or row.get('y') or row.get('seen')), {'row': row, 'text': texts[row['id']]})
     report.assumptions += ['the value of -a^b, truth values used as numbers, % with a negative operand, fractional powers, sqrt of a negative: not demanded',
                            'numeric comparison of an observed value with the exact one is to 5-6 significant digits']
